@@ -356,6 +356,9 @@ Prop_C14(S) == IsRecv(S) =>
 Prop_C17(S) == S.in.t = "reimport" =>
   /\ S.x.exportOk /\ S.x.validateOk /\ S.x.initOk /\ S.x.sameExport /\ S.x.fullOk
   /\ OrbGroups(S.post) = OrbGroups(S.pre)
+  \* probe transfers run on discarded branches before and after the re-initialisation end alike
+  \* (in the specification Reimport is the identity on the state, so Apply cannot tell them apart)
+  /\ S.x.sameBeh
 
 \* the forms asserted by the model-checking configs (see KnownDeviationIGP)
 MC_C02(S) == KnownDeviationIGP(S) \/ Prop_C02(S)
